@@ -71,6 +71,18 @@ CHECKS = {
   note="Only histories the model itself accepts are generated, so the verdict never depends on the accept/reject "
        "boundary. spec/events.json was characterised once on the unchanged tree and reviewed against the event "
        "descriptions."),
+ "C12": dict(
+  cat="exploration", ref="DESIGN.md section 3, C12",
+  technique="runtime monitoring: exhaustive single-corruption enumeration of valid synthetic traces, real ovniemu must reject",
+  text="Valid multi-model base traces (1-3 streams, jumbo type events, tasks, marks; first confirmed accepted) are "
+       "corrupted one thing at a time and run through the real ovniemu: every header byte altered, truncation at every "
+       "byte offset, every adjacent pair with different clocks swapped, each mandatory metadata key removed or altered "
+       "(version, part, tid, pid, loom, finished, lib.*, app_id and loom_cpus on their only carriers, require removed "
+       "from all streams, incompatible or unparsable required versions, broken JSON), each event replaced by an event of "
+       "a model the trace does not require or by an unknown code, size-checked events given wrong payload sizes, jumbo "
+       "flag cleared. The emulator must exit non-zero without printing 'emulation finished ok'; a signal is reported too.",
+  note="Thorough enumerates every corruption of every class on 64 bases; quick takes a strided sample per class on 16. "
+       "Events whose payload size no model checks are outside the statement."),
 }
 
 NOT_YET = "check not implemented yet in this revision (work in progress, see DESIGN.md section 3)"
